@@ -82,6 +82,7 @@ type RunResult struct {
 	Trusted   []string
 	Axioms    []string
 	Inputs    []string                   // preconditions of exported methods: input assumptions granted by the property's quantifier text
+	Relies    []string                   // package invariants proved in one module and assumed on entry in another
 	Locals    map[string][]sym.LocalInfo // parameters and locals of the functions under contract (for the baseline)
 }
 
@@ -227,6 +228,27 @@ func genModule(pkgs []*packages.Package, m *Module, byName map[string]*Module, o
 			continue
 		}
 		e.Specs[up.PkgPath] = um.Spec
+	}
+	for _, r := range m.Spec.Relies {
+		um := byName[r[0]+"."+r[1]]
+		if um == nil || pkgByRel(pkgs, um.PkgRel) != target {
+			rr.Errors = append(rr.Errors, fmt.Sprintf("module %s relies on %s.%s: not a module of the same package", m.Name, r[0], r[1]))
+			continue
+		}
+		found := false
+		for _, inv := range um.Spec.Invs {
+			if inv.Name == r[2] {
+				found = true
+				if e.Relied == nil {
+					e.Relied = map[string][]sym.RelyInv{}
+				}
+				e.Relied[target.PkgPath] = append(e.Relied[target.PkgPath], sym.RelyInv{From: um.Name, Inv: inv, File: um.Spec})
+				rr.Relies = append(rr.Relies, fmt.Sprintf("module %s assumes on entry of exported methods the package invariant %s, proved for every exported method in module %s (its obligations are part of this check)", m.Name, inv.Name, um.Name))
+			}
+		}
+		if !found {
+			rr.Errors = append(rr.Errors, fmt.Sprintf("module %s relies on unknown invariant %s of %s", m.Name, r[2], um.Name))
+		}
 	}
 	for _, p := range pkgs {
 		if err := e.LoadGlobals(p.PkgPath); err != nil && opt.Verbose {
@@ -482,6 +504,12 @@ func Run(opt Options, own, used []*Module, all []*Module) *RunResult {
 	}
 	// supporting modules: verify the contracts the check rests on (transitively), not everything they contain
 	listed := map[string]bool{}
+	relied := map[string]bool{}
+	for _, m := range append(append([]*Module{}, own...), used...) {
+		for _, r := range m.Spec.Relies {
+			relied[r[0]+"."+r[1]] = true
+		}
+	}
 	for round := 0; round < 12; round++ {
 		before := len(done)
 		for _, m := range used {
@@ -491,6 +519,15 @@ func Run(opt Options, own, used []*Module, all []*Module) *RunResult {
 			if !listed[m.Name] {
 				listed[m.Name] = true
 				rr.Modules = append(rr.Modules, m.Name)
+			}
+			if relied[m.Name] {
+				// a module whose invariant another module relies on is verified in full (the invariant is an induction
+				// over all its exported methods), once
+				if !done["full:"+m.Name] {
+					done["full:"+m.Name] = true
+					jobs = append(jobs, genModule(pkgs, m, byName, opt, rr, nil, done, applied)...)
+				}
+				continue
 			}
 			jobs = append(jobs, genModule(pkgs, m, byName, opt, rr, applied, done, applied)...)
 		}
